@@ -15,6 +15,18 @@ func c13Profiles(tier string) []Profile {
 	}
 	mk := func(name string, keys [][]byte, nprio int, depth int) *SeqProfile {
 		return &SeqProfile{Name: name, Keys: keys, Depth: depth, Init: initX, Mon: mon,
+			Finish: func(w *harness.World) {
+				if _, ok := w.Colls["x"]; ok {
+					ks := w.M.Cur.Colls["x"].SortedKeys()
+					if len(ks) > 1 {
+						// partial visits in both directions from the median key
+						w.Visit("x", harness.APIAscendEx, ks[len(ks)/2], false, -1)
+						w.Visit("x", harness.APIDescendEx, ks[len(ks)/2], false, -1)
+						w.CheckVisitDepths()
+					}
+				}
+				StandardFinish(w)
+			},
 			Letters: func(w *harness.World) []Letter {
 				var ls []Letter
 				for _, k := range keys {
